@@ -614,7 +614,70 @@ pub mod ctl {
     /// Two or three tables. Table 0 and (if present) table 2 look pairs (a, b) — table 0 twice, with
     /// two different column pairs and filters — into table 1, whose filter column carries the
     /// multiplicity of each row.
+    /// `verify_cross_table_lookups_circuit` against the native `verify_cross_table_lookups` on the same
+    /// first-row openings: equal sums must be accepted by both, any other relation rejected by both —
+    /// whatever values the circuit's other targets hold (the first virtual target of the circuit is
+    /// given a random non-zero value: F-C10-5 was an `unwrap_or_default()` on an `Option<Target>` that
+    /// silently added `VirtualTarget { index: 0 }` to the looking sum).
+    fn ctl_circuit_vs_native(e: &mut Emitter, r: &mut Rng, thorough: bool) {
+        use plonky2::iop::witness::{PartialWitness, WitnessWrite};
+        use plonky2::plonk::circuit_builder::CircuitBuilder;
+        use plonky2::plonk::circuit_data::CircuitConfig;
+        use starky::cross_table_lookup::verify_cross_table_lookups_circuit;
+        use starky::lookup::{Column, Filter};
+        for rep in 0..(if thorough { 6 } else { 2 }) {
+            let nch = 1 + (rep % 3);
+            let mut config = StarkConfig::standard_fast_config();
+            config.num_challenges = nch;
+            let two_looking = rep % 2 == 1;
+            let mk_ctls = || -> Vec<CrossTableLookup<F>> {
+                let looking = |_: usize| TableWithColumns::new(0, Column::singles([0, 1]).collect(), Filter::new_simple(Column::single(2)));
+                let mut l = vec![looking(0)];
+                if two_looking { l.push(TableWithColumns::new(0, Column::singles([1, 0]).collect(), Filter::new_simple(Column::single(2)))); }
+                vec![CrossTableLookup::new(l, TableWithColumns::new(1, Column::singles([0, 1]).collect(), Filter::new_simple(Column::single(2))))]
+            };
+            // one running sum per (table, challenge): two looking entries of one table share it
+            let per_table0 = nch;
+            e.stage("building a circuit around verify_cross_table_lookups_circuit");
+            let built = std::panic::catch_unwind(std::panic::AssertUnwindSafe(|| {
+                let mut b = CircuitBuilder::<F, 2>::new(CircuitConfig::standard_recursion_config());
+                let t_first = b.add_virtual_target();
+                let t0 = b.add_virtual_targets(per_table0);
+                let t1 = b.add_virtual_targets(nch);
+                verify_cross_table_lookups_circuit::<F, 2, 2>(&mut b, mk_ctls(), [t0.clone(), t1.clone()], &HashMap::new(), &config);
+                (b.build::<C>(), t_first, t0, t1)
+            }));
+            let Ok((data, t_first, t0, t1)) = built else { e.oracle_failures.push("verify_cross_table_lookups_circuit could not be laid out".into()); continue; };
+            for variant in 0..4 {
+                let first = F::from_canonical_u64(1 + r.below(P - 1));
+                let z0: Vec<F> = (0..per_table0).map(|_| F::from_canonical_u64(r.below(P))).collect();
+                // looked opening per challenge: the sum of this challenge's looking openings (+ an offset)
+                let offs = match variant { 0 => F::ZERO, 1 => first, 2 => F::ONE, _ => F::from_canonical_u64(r.below(P)) };
+                let z1: Vec<F> = (0..nch).map(|c| {
+                    let sum = z0[c];
+                    sum + if variant == 3 && c > 0 { F::ZERO } else { offs }
+                }).collect();
+                let native = verify_cross_table_lookups::<F, 2, 2>(&mk_ctls(), [z0.clone(), z1.clone()], &HashMap::new(), &config).is_ok();
+                let circ = std::panic::catch_unwind(std::panic::AssertUnwindSafe(|| -> anyhow::Result<()> {
+                    let mut pw = PartialWitness::new();
+                    pw.set_target(t_first, first)?;
+                    for (t, v) in t0.iter().zip(&z0) { pw.set_target(*t, *v)?; }
+                    for (t, v) in t1.iter().zip(&z1) { pw.set_target(*t, *v)?; }
+                    let p = data.prove(pw)?;
+                    data.verify(p)
+                }));
+                let circ = matches!(circ, Ok(Ok(())));
+                e.count(&format!("ctl sums native vs circuit: variant {variant} native={native} circuit={circ}"));
+                if native != circ {
+                    e.oracle_failures.push(format!("verify_cross_table_lookups_circuit {} where the native verify_cross_table_lookups {} (challenges {nch}, looking entries {}, looked − Σlooking = {} for the first challenge, first virtual target of the circuit = {})",
+                        if circ { "ACCEPTS" } else { "REJECTS" }, if native { "accepts" } else { "rejects" }, if two_looking { 2 } else { 1 }, offs.to_canonical_u64(), first.to_canonical_u64()));
+                }
+            }
+        }
+    }
+
     pub fn emit(e: &mut Emitter, r: &mut Rng, thorough: bool) {
+        ctl_circuit_vs_native(e, r, thorough);
         let n_sys = if thorough { 13 } else { 4 };
         for sys in 0..n_sys {
             // The CTL terms the library adds include last-row constraints of degree 2 (`combine · Z − filter`
